@@ -46,6 +46,40 @@ func (e *Encoder) float64Lit(f float64, is32 bool) string {
 	return fmt.Sprintf("(fp #b%01b #b%011b #b%052b)", b>>63, (b>>52)&0x7ff, b&0xfffffffffffff)
 }
 
+func (e *Encoder) ilitBig(n *big.Int) string {
+	if n.Sign() < 0 {
+		return "(- " + new(big.Int).Neg(n).String() + ")"
+	}
+	return n.String()
+}
+
+// convAxioms declares u2i/s2i/i2bv for width w with axioms that hold of the real conversions.
+func (e *Encoder) convAxioms(w int) {
+	M := pow2(w).String()
+	H := pow2(w - 1).String()
+	bv := fmt.Sprintf("(_ BitVec %d)", w)
+	z := fmt.Sprintf("(_ bv0 %d)", w)
+	decl := fmt.Sprintf("(declare-fun u2i%d (%s) Int)\n(declare-fun s2i%d (%s) Int)\n(declare-fun i2bv%d (Int) %s)", w, bv, w, bv, w, bv)
+	ax := []string{
+		fmt.Sprintf("(assert (forall ((x %s)) (! (and (<= 0 (u2i%d x)) (< (u2i%d x) %s) (= (i2bv%d (u2i%d x)) x)) :pattern ((u2i%d x)))))", bv, w, w, M, w, w, w),
+		fmt.Sprintf("(assert (forall ((x %s)) (! (and (= (s2i%d x) (ite (bvslt x %s) (- (u2i%d x) %s) (u2i%d x))) (= (i2bv%d (s2i%d x)) x)) :pattern ((s2i%d x)))))", bv, w, z, w, M, w, w, w, w),
+		fmt.Sprintf("(assert (forall ((n Int)) (! (= (u2i%d (i2bv%d n)) (mod n %s)) :pattern ((i2bv%d n)))))", w, w, M, w),
+		fmt.Sprintf("(assert (forall ((x %s) (y %s)) (! (= (bvult x y) (< (u2i%d x) (u2i%d y))) :pattern ((u2i%d x) (u2i%d y)))))", bv, bv, w, w, w, w),
+		fmt.Sprintf("(assert (forall ((x %s) (y %s)) (! (= (bvslt x y) (< (s2i%d x) (s2i%d y))) :pattern ((s2i%d x) (s2i%d y)))))", bv, bv, w, w, w, w),
+		fmt.Sprintf("(assert (= (u2i%d %s) 0))", w, z),
+		fmt.Sprintf("(assert (forall ((n Int)) (! (=> (and (<= 0 n) (< n %s)) (not (bvslt (i2bv%d n) %s))) :pattern ((i2bv%d n)))))", H, w, z, w),
+	}
+	e.addPre(fmt.Sprintf("conv%d", w), decl)
+	e.addPre(fmt.Sprintf("u2i%d.ax", w), strings.Join(ax, "\n"))
+}
+
+func min64(a, b int64) int64 {
+	if a < b {
+		return a
+	}
+	return b
+}
+
 func pow2(k int) *big.Int { return new(big.Int).Lsh(big.NewInt(1), uint(k)) }
 
 // uf declares (once) and applies an uninterpreted function.
@@ -193,9 +227,34 @@ func (e *Encoder) binop(op token.Token, x, y string, t types.Type, yt types.Type
 					yw, _ = intWidth(yb)
 				}
 				if !e.isBV(yt) {
-					// shift count of type int: mathematical -> bit-vector of x's width (counts >= w saturate)
-					y = fmt.Sprintf("(ite (>= %s %d) (_ bv%d %d) ((_ int2bv %d) %s))", y, w, w, w, w, y)
-					yw = w
+					// shift count of type int (mathematical): a case table over the w possible constant
+					// shifts avoids int2bv, which the solvers handle badly
+					if c, ok := e.litValue(y); ok && c.IsInt64() && c.Int64() >= 0 {
+						y = fmt.Sprintf("(_ bv%d %d)", min64(c.Int64(), int64(w)), w)
+						yw = w
+					} else {
+						fn := fmt.Sprintf("shift.%s.%d.%v", map[token.Token]string{token.SHL: "shl", token.SHR: "shr"}[op], w, signed)
+						var body string
+						if op == token.SHR && signed {
+							body = fmt.Sprintf("(bvashr x (_ bv%d %d))", w-1, w)
+						} else {
+							body = fmt.Sprintf("(_ bv0 %d)", w)
+						}
+						for k := w - 1; k >= 0; k-- {
+							var sh string
+							switch {
+							case op == token.SHL:
+								sh = fmt.Sprintf("(bvshl x (_ bv%d %d))", k, w)
+							case signed:
+								sh = fmt.Sprintf("(bvashr x (_ bv%d %d))", k, w)
+							default:
+								sh = fmt.Sprintf("(bvlshr x (_ bv%d %d))", k, w)
+							}
+							body = fmt.Sprintf("(ite (= n %d) %s %s)", k, sh, body)
+						}
+						e.addPre(fn, fmt.Sprintf("(define-fun %s ((x (_ BitVec %d)) (n Int)) (_ BitVec %d) %s)", fn, w, w, body))
+						return fmt.Sprintf("(%s %s %s)", fn, x, y), nil
+					}
 				}
 				amt := y
 				var over string
@@ -349,13 +408,28 @@ func (e *Encoder) convert(x string, from, to types.Type) (string, error) {
 		tw, ts := intWidth(tb)
 		fbv, tbv := e.isBV(from), e.isBV(to)
 		if fbv && !tbv {
-			// bit-vector -> mathematical int
-			nat := fmt.Sprintf("(bv2nat %s)", x)
-			v := nat
-			if fs {
-				v = fmt.Sprintf("(ite (bvslt %s (_ bv0 %d)) (- %s %s) %s)", x, fw, nat, pow2(fw).String(), nat)
+			// bit-vector -> mathematical int through axiomatised conversion functions
+			// (bv2nat/int2bv are handled badly by the solvers; the axioms are all true of the real conversion)
+			e.convAxioms(fw)
+			var v string
+			if lit, ok := e.litValue(x); ok {
+				n := new(big.Int).Set(lit)
+				if fs && n.Cmp(pow2(fw-1)) >= 0 {
+					n.Sub(n, pow2(fw))
+				}
+				v = e.ilitBig(n)
+			} else if fs {
+				v = fmt.Sprintf("(s2i%d %s)", fw, x)
+			} else {
+				v = fmt.Sprintf("(u2i%d %s)", fw, x)
 			}
 			if tw < fw || (!fs && tw == fw) {
+				if !fs && tw == fw {
+					// unsigned -> signed of the same width: reinterpretation
+					if _, ok := e.litValue(x); !ok {
+						return fmt.Sprintf("(s2i%d %s)", fw, x), nil
+					}
+				}
 				m := pow2(tw).String()
 				h := pow2(tw - 1).String()
 				v = fmt.Sprintf("(- (mod (+ %s %s) %s) %s)", v, h, m, h)
@@ -363,7 +437,11 @@ func (e *Encoder) convert(x string, from, to types.Type) (string, error) {
 			return v, nil
 		}
 		if !fbv && tbv {
-			return fmt.Sprintf("((_ int2bv %d) %s)", tw, x), nil
+			e.convAxioms(tw)
+			if lit, ok := e.litValue(x); ok {
+				return e.tlit(lit, to), nil
+			}
+			return fmt.Sprintf("(i2bv%d %s)", tw, x), nil
 		}
 		if fbv && tbv {
 			switch {
